@@ -379,16 +379,23 @@ def main(tier: str) -> int:
             if r.get("baseline_problem"):
                 run.harness_error(f"abort program {p['program']} is not usable as a base: {r['baseline_problem']}")
                 continue
+            grouped: Dict[str, List[Dict[str, Any]]] = {}
             for rec in r["points"]:
                 run.add("evaluations", 2)
                 ident = f"{p['program']}|pass{rec['k']}:{rec['pass']}|{rec['scope']}"
                 if rec.get("fired"):
                     fired += 1
                     run.nontrivial(ident)
+                scope_cls = "top" if rec["scope"] == "top" else "function-body"
                 if rec.get("problem"):
-                    run.violation(f"b|{ident}|default", rec["problem"], {"kind": "abort", "case": p, "point": rec})
+                    cls = ("stale-shape-annotation" if "Inferred shape and existing shape" in rec["problem"] else
+                           rec["problem"].split(":")[0][:40])
+                    grouped.setdefault(f"b|{p['program']}|{scope_cls}|default|{cls}", []).append(rec)
                 if rec.get("strict_problem") and rec.get("fired", True):
-                    run.violation(f"b|{ident}|strict", rec["strict_problem"], {"kind": "abort", "case": p, "point": rec})
+                    grouped.setdefault(f"b|{p['program']}|{scope_cls}|strict", []).append(rec)
+            for key, recs in grouped.items():
+                run.violation(key, f"abort at {[(x['k'], x['pass']) for x in recs][:6]}: " + (recs[0].get("problem") or recs[0].get("strict_problem")),
+                              {"kind": "abort", "case": p, "point": recs[0]}, cases=sorted({f"pass{x['k']}" for x in recs}))
             run.sample({"program": p["program"], "abort_points": len(r["points"]), "functions": r["functions"]})
         run.cov["abort_points_that_changed_the_model"] = fired
     return run.finish()
